@@ -95,11 +95,12 @@ class Splitter:
 
         # Get next mark from iterator
         m = next(self._markiter, None)
+        # Skip (but count) newline marks
+        while m is not None and m.group(0) == "\n":
+            self._current_line += 1
+            m = next(self._markiter, None)
         if m is not None:
             self._current_char_index = m.start()
-            if m.group(0) == "\n":
-                self._current_line += 1
-                return self._next_mark(accept_eof=accept_eof)
         else:
             # Reached end of file
             self._current_char_index = len(self.bibstr)
